@@ -1172,6 +1172,16 @@ def duplicated_first(idx, keep='first'):
 def arr_sum(a, ctx=None):
     """sum of all elements of a (Arr)."""
     cn = concrete_int(a.n)
+    if cn is None:
+        probe = a.f(z3.Int('sum!probe'))
+        if is_bool_like(probe) and not isinstance(probe, bool):
+            # sum of a boolean array = number of True elements = size of the selection by that mask (A2)
+            if a.comp is not None:
+                base, mask = a.comp
+                m = Arr(mask.n, lambda j, _b=base.f, _m=mask.f: z3.And(to_bool(_m(j)), to_bool(_b(j))))
+            else:
+                m = a
+            return COMP.get(m)[0]
     if a.comp is not None:
         base, mask = a.comp
         P = SUMS.prefix(lambda j, _f_base=base.f, _f_mask=mask.f: ite(to_bool(_f_mask(j)), _numify(_f_base(j)), _zero_like(_f_base(j))), ctx)
